@@ -258,6 +258,25 @@ func buildAlphabet(t *Table) []Token {
 		add("cluster-valued-notlast", true, "", d.Short+boolShort[0][1:])
 		add("cluster-valued-attached", true, "", d.Short+"json")
 	}
+	// "=value" on short options: alone, as the last letter of a cluster of one and of two
+	// flags, and on a flag that takes no value (alone and in a cluster)
+	for _, o := range t.Opts {
+		if o.Short == "" || !(o.Kind == "string" || o.Kind == "array" || o.Kind == "object") {
+			continue
+		}
+		good, _ := valuesFor(o.Key)
+		add("short=:"+o.Key, false, "", o.Short+"="+good[0].v)
+		if len(boolShort) > 0 {
+			add("cluster-valued-last=:"+o.Key, false, "", boolShort[0]+o.Short[1:]+"="+good[0].v)
+		}
+		if len(boolShort) > 1 {
+			add("cluster3-valued-last=:"+o.Key, false, "", boolShort[0]+boolShort[1][1:]+o.Short[1:]+"="+good[0].v)
+		}
+	}
+	if len(boolShort) > 1 {
+		add("short-bool=value", false, "", boolShort[0]+"=1")
+		add("cluster-bool=value", false, "", boolShort[0]+boolShort[1][1:]+"=1")
+	}
 	if len(boolShort) > 0 {
 		add("cluster-unknown-letter", true, "", boolShort[0]+unknownShort(t)[1:])
 	}
